@@ -53,6 +53,11 @@ type RunConfig struct {
 	// FreeTasks: harness tasks are not scheduled one at a time (race-detector runs: the
 	// scheduler's hand-over would order every pair of accesses by happens-before)
 	FreeTasks bool
+	// Stalls (race-detector runs, T6): per mille of the library's statements that are stall sites in
+	// this run (0 = none), share of the passes that stall, and the largest duration as 1µs << MaxShift
+	StallPermille int `json:",omitempty"`
+	StallHitPct   int `json:",omitempty"`
+	StallMaxShift int `json:",omitempty"`
 }
 
 // Program is the workload and fault plan of a run; explicit data so that it can
